@@ -88,6 +88,10 @@ def gen_names(r, k, net=False, family=False):
             add(base.swapcase(), "case-only")
         else:
             add(r.choice(["&", "&a", "_", "9", "-", "a-b", "A_b", "a_B", "x[", "x[0", "[3]x", "\\esc ", "a b"]), "special")
+    if r.random() < 0.12:
+        # a percent sign followed by a long run of digits (an EDIF string may hold %<numbers>% escapes; this is none - no closing
+        # percent sign - and has to be read as the plain text it is, in time proportional to its length)
+        add(r.choice(["%", "w%", "50%", "%-"]) + r.choice("0123456789") * 28, "percent-digits")
     return out, kinds
 
 
@@ -234,13 +238,25 @@ def run_case(ctx, i, rng):
             if res:
                 ctx.violation(res[0] + ":" + scope, res[1])
                 return
+        import time as _time
+        cpu0 = _time.process_time()
         try:
             n2 = sdn.parse(f)
         except Exception as ex:  # noqa: BLE001
             fr = probes.innermost_frame(ex) or ""
             ctx.violation("written-file-rejected:%s:%s" % (type(ex).__name__, fr.split(":")[-1]), "%r at %s" % (str(ex)[:200], fr))
             return
+        cpu = _time.process_time() - cpu0
         ctx.count("reparsed")
+        # "readable again" includes: in time that grows with the size of the file, not exponentially with the length of one name
+        # (CPU time of this process, not wall-clock; the bound is ~10x what the reader needs per byte plus 3 s)
+        size_ = os.path.getsize(f)
+        ctx.count("reader_cpu_bounds_checked")
+        if cpu > 3.0 + 30e-6 * size_:
+            worst = max((x.name for sc_, es_ in scopes for x in es_), key=lambda nm_: (nm_.count("%"), len(nm_)))
+            ctx.violation("written-file-read-in-superlinear-time", "re-reading the %d-byte file the writer produced took %.1f s of CPU (bound %.1f s); "
+                          "names include %r" % (size_, cpu, 3.0 + 30e-6 * size_, worst[:60]))
+            return
         # re-read names per scope
         want = {l.name: {dd.name: ([p.name for p in dd.ports], sorted(c.name for c in dd.cables), sorted(x.name for x in dd.children))
                          for dd in l.definitions} for l in n.libraries}
